@@ -7,6 +7,7 @@
 From BBF Require Import Base.Prelude Base.Names Base.Bits Spec.Sem
      Model.Expr Model.Table Model.LibBdd Model.Bdd Model.Lexer Model.Parser Model.Display Model.Render Model.Csv Model.Prog
      Proofs.DdProofs Proofs.BddProofs Proofs.BddOps Proofs.EnumProofs Proofs.ProgProofs.
+From BBF Require Import Model.Lexer Model.Parser Model.Display Model.Render Model.Csv Model.Prog Proofs.ProgProofs Proofs.ConvChain Proofs.ObsProofs.
 
 Theorem C15_step : forall p i x, Inv p -> allowed p i -> exec p i = Ok x -> Rel x.
 Proof. exact exec_sound. Qed.
@@ -75,3 +76,9 @@ Example C15_example :
   let prog := [IExpr (And [Lit [97%N]; Not (Lit [98%N])]); IConv KT 0; IConv KB 0; IRestrict 2 [([97%N], true)]; IQuant QExists 1 [[98%N]]] in
   allowed_all [] prog /\ length (run prog) = 5.
 Proof. split; [repeat split|reflexivity]. Qed.
+
+(* the node count too is that of any other well-formed diagram of the same function over the same inputs *)
+Theorem C15_node_count_determined : forall a b, wf_bdd a -> wf_bdd b -> b_inputs a = b_inputs b ->
+  (forall v, bsem a v = bsem b v) -> b_node_count a = b_node_count b.
+Proof. exact node_count_determined. Qed.
+Print Assumptions C15_node_count_determined.
